@@ -29,7 +29,8 @@ THEOREMS = ['C01_flag_den', 'C01_expand_surfs_den', 'C01_expand_surfs_errors',
             'C01_partition_points', 'C01_print_read', 'C01_partition_file',
             'C01_partition_file_points', 'C01_partition_file_points_linked',
             'C01_cells_linked', 'C01_partition_linked', 'C01_partition_fill_linked',
-            'C01_partition_fill_written_linked', 'C01_cards_fill_linked']
+            'C01_partition_fill_written_linked', 'C01_partition_fill_points_linked',
+            'C01_cards_fill_linked']
 TRUSTED = [
     'hand-written model coq/C01/Model.v + Printer.v (modelled, tied by execution: '
     'whole volume table, counter, caches, pruning, printed VOLU lines token by '
